@@ -1,4 +1,4 @@
 (* REGENERATED from src/mxlpy/simulation.py and src/mxlpy/model.py by harness/c10.py; do not edit.
-   An unrecognised shape yields NRUnknown / PKUnknown / false, which breaks C10_facts_pinned. *)
+   An unrecognised shape yields NRUnknown / PKUnknown / VKUnknown / false, which breaks C10_facts_pinned. *)
 From SimRes Require Import ResModel.
-Definition gen_res_facts : res_facts := mkResFacts NRFixed true true true PKRows true true true.
+Definition gen_res_facts : res_facts := mkResFacts NRFixed true true true PKRows true true true VKRestores.
